@@ -109,3 +109,15 @@ def keyify(eng, args, kwargs, st, node):
             xs[j], xs[j + 1] = z3.If(a <= b, a, b), z3.If(a <= b, b, a)
     eng.externals_used.add('utils.keyify (sorted tuple of its arguments)')
     yield TupV([SV(INT, z3.simplify(x)) for x in xs]), st
+
+
+# ----------------------------------------------------------------------------- scipy.sparse.lil_matrix (A-scipy)
+# lil_matrix((n, m)) is modelled as its *entry map* (row, col) -> value: an empty Python dict keyed by index pairs.
+#   mat[i, j] = v   overwrites exactly the entry (i, j)      (dict store)
+#   mat.tocsc()     keeps the entries                        (identity on the entry map, see builtins.dict_method)
+# Not modelled: scipy's IndexError for an index outside the shape (the shape is dropped), explicit zeros.
+@external('scipy.lil_matrix')
+def sp_lil_matrix(eng, args, kwargs, st, node):
+    eng.externals_used.add('scipy.sparse.lil_matrix (entry map (row, col) -> value; item assignment overwrites one entry; tocsc() keeps entries)')
+    t = Ty('dict', [Ty('tuple', [INT, INT]), REAL])
+    yield new_dict(st, t, name='lil', empty=True), st
